@@ -212,6 +212,47 @@ def run(chk, tier, seed):
             for p in [path] + dumps:
                 os.unlink(p)
             return evs
+        def do_skiptail(i):
+            # SKIPBITS (+ SETINDEX) in the final gap of a track, after the last sector: whatever the interpreter does with the rest of
+            # that block, no sector cell is involved, so the image must read like the dump (this is not the known finding, which is
+            # about SKIPBITS inside a sector)
+            enc = "FM" if i % 2 == 0 else "MFM"
+            job = (7500 + i, enc, 40, 10 if enc == "FM" else 18, "hfe3", False)
+            tag = "kt%d" % i
+            which = (lambda t: True) if i % 3 == 0 else ((lambda t: t == 0) if i % 3 == 1 else (lambda t: t % 7 == 3))
+            path, dumps, entss, params = make(job, tag, ops=lambda t, s, n: [(n - 6, "skipbits", 1 + i % 7), (n - 4, "setindex", 0)] if which(t) else [], plain=True)
+            evs = compare(job, path, dumps, entss, tag, dict(skiptail=1 + i % 7))
+            for e in evs:
+                e["skiptail"] = 1
+            for p in [path] + dumps:
+                os.unlink(p)
+            return evs
+
+        def do_blank2(i):
+            # a one-sided disc in a two-sided container (what imaging a single-sided floppy with two heads gives): side 1 decodes to
+            # no sectors at all; side 0 must read exactly like its dump
+            enc, ntr, spt, version = [("FM", 40, 10, 1), ("MFM", 40, 18, 1), ("FM", 80, 10, 3), ("MFM", 80, 18, 3)][i % 4]
+            job = (8000 + i, enc, ntr, spt, "hfe%d" % version, False)
+            tag = "b2-%d" % i
+            rr = random.Random(seed * 17 + i)
+            img0, ents = disc_image(8000 + i, spt, ntr, rr)
+            s0, s1 = [], []
+            for t in range(ntr):
+                secs = {r_: bytes(img0[(t * spt + r_) * 256:(t * spt + r_ + 1) * 256]) for r_ in range(spt)}
+                s0.append(mkflux.hfe_side_stream(mkflux.build_track(enc, t, 0, secs)))
+                blank = mkflux.Track(enc)
+                blank.gap(len(s0[-1]) // (2 if enc == "FM" else 2) // 2 if False else 1500, fill=(0xFF if enc == "FM" else 0x4E) if i % 2 == 0 else 0x00)
+                s1.append(mkflux.hfe_side_stream(blank))
+            path = os.path.join(scratch, tag + ".hfe")
+            mkflux.write_hfe(path, [s0, s1], ntr, enc, version=version)
+            dp = mkdisc.write(os.path.join(scratch, tag + (".ssd" if enc == "FM" else ".sdd")), bytes(img0))
+            evs = compare(job, path, [dp], [ents], tag, dict(blank_side1=True))
+            for e in evs:
+                e["blank2"] = 1
+            for p in (path, dp):
+                os.unlink(p)
+            return evs
+
         def do_pad(g1):
             # two-sided image, unpadded LUT length, minimal trailing gaps: the end of side 1's last block matters
             job = (9000 + g1, "FM", 40, 10, "hfe1", True)
@@ -222,7 +263,8 @@ def run(chk, tier, seed):
                 os.unlink(p)
             return evs
         pads = list(range(0, 64, 8 if quick else 1))
-        res = common.pmap(do_pad, pads) + common.pmap(do, jobs) + common.pmap(do_placement, list(enumerate(pl_jobs))) + common.pmap(do_skip, list(range(2 if quick else 8)))
+        res = common.pmap(do_pad, pads) + common.pmap(do, jobs) + common.pmap(do_placement, list(enumerate(pl_jobs))) + common.pmap(do_skip, list(range(2 if quick else 8))) + \
+              common.pmap(do_skiptail, list(range(6 if quick else 42))) + common.pmap(do_blank2, list(range(4 if quick else 16)))
         events = [e for evs in res for e in evs]
         for e in events:
             chk.case((e["tag"], tuple(e["cmd"]), e["side"]), nontrivial=e["cmd"][0] not in ("cat", "show-titles", "free"))
@@ -239,7 +281,7 @@ def run(chk, tier, seed):
             raise common.MachineryError("TraceFlux did not consume the whole trace:\n" + tr.output[-3000:])
         for ln in sorted(tr.verdicts[-1]["bad"]):
             e = events[ln - 1]
-            kind = "skipbits" if e.get("skip") else ("v3-opcodes" if "placement" in e["extra"] else ("two-sided" if e["side"] == 1 else "plain"))
+            kind = "skipbits" if e.get("skip") else "skipbits-tail" if e.get("skiptail") else "blank-side1" if e.get("blank2") else ("v3-opcodes" if "placement" in e["extra"] else ("two-sided" if e["side"] == 1 else "plain"))
             chk.violation("%s:%s:%s" % (e["fmt"], e["enc"], kind),
                           "%s %s %dx%d side %d: `%s` differs from the sector dump (rc flux %s / dump %s, clean=%s) %s; params %s" %
                           (e["fmt"], e["enc"], e["ntr"], e["spt"], e["side"], " ".join(e["cmd"]), e["rc_flux"], e["rc_dump"], e["clean"], e["err"][:120],
